@@ -653,6 +653,78 @@ Definition flux_mon_ok (c : flux_case) : bool :=
   match c with (_, code, obs) => C16_ok_flux code obs end.
 Definition flux_case_ok (c : flux_case) : bool := flux_corr_ok c && flux_mon_ok c.
 
+(* ------------------------------------------------------------------------ *)
+(** * The engine's layer on top of the adapters: ExecutionGraph.check_study_status
+      (executiongraph.py): the ids of the in-progress steps are queried and the
+      adapter's table is re-keyed by step name *)
+
+(** [jobmap[jobid]] ([jobmap]: job id -> step name, in query order) *)
+Fixpoint assoc_step (jobmap : list (str * str)) (j : str) : option str :=
+  match jobmap with
+  | [] => None
+  | (k, step) :: r => if str_eqb j k then Some step else assoc_step r j
+  end.
+
+(** [step_status = {jobmap[jobid]: status for jobid, status in job_status.items()}];
+    None = KeyError (the adapter echoed an id that was not queried) *)
+Fixpoint step_table (jobmap : list (str * str)) (st : status) : option status :=
+  match st with
+  | [] => Some []
+  | (j, v) :: r =>
+    match assoc_step jobmap j, step_table jobmap r with
+    | Some step, Some l => Some ((step, v) :: l)
+    | _, _ => None
+    end
+  end.
+
+(** check_study_status given the adapter's answer: the same code, the re-keyed table *)
+Definition engine_run (jobmap : list (str * str)) (code : JobStatusCode) (st : status) : result :=
+  match step_table jobmap st with
+  | Some tbl => Ret code tbl
+  | None => Exc
+  end.
+
+(** the STATE an entry claims: "absent" and None both claim nothing *)
+Definition claimed (a : option (option State)) : option State :=
+  match a with Some (Some x) => Some x | _ => None end.
+
+(** The monitor of the engine layer.  [code], [st]: what the adapter answered;
+    [obs]: what check_study_status returned.  Every queried step claims exactly
+    the state the adapter's table holds for ITS job id -- in particular a step
+    whose job is absent from the table (no key, or None) comes back without a
+    state --, nothing else is a key, the code is passed on. *)
+Definition C16_ok_engine (jobmap : list (str * str)) (code : JobStatusCode) (st : status)
+           (obs : result) : bool :=
+  match obs with
+  | Exc => false
+  | Ret c tbl =>
+    JS_eqb c code
+    && forallb (fun e => match assoc_step jobmap (fst e) with
+                         | Some step => opt_state_eqb (claimed (get tbl step)) (claimed (get st (fst e)))
+                         | None => false
+                         end) jobmap
+    && forallb (fun e => existsb (fun m => str_eqb (snd m) (fst e)) jobmap) tbl
+  end.
+
+Fixpoint nodup_strb (l : list str) : bool :=
+  match l with [] => true | x :: r => negb (memb x r) && nodup_strb r end.
+(** every in-progress step has its own job id; the adapter answers about queried ids only *)
+Definition wf_jobmap (jobmap : list (str * str)) : bool :=
+  nodup_strb (map fst jobmap) && nodup_strb (map snd jobmap).
+Definition wf_answer (jobmap : list (str * str)) (st : status) : bool :=
+  forallb (fun e => memb (fst e) (map fst jobmap)) st.
+
+(** (job id -> step, the adapter's (code, table), what check_study_status returned) *)
+Definition engine_case := (list (str * str) * (JobStatusCode * status) * result)%type.
+Definition engine_corr_ok (c : engine_case) : bool :=
+  match c with (jm, (code, st), obs) => result_eqb (engine_run jm code st) obs end.
+Definition engine_mon_ok (c : engine_case) : bool :=
+  match c with
+  | (jm, (code, st), obs) =>
+    if wf_jobmap jm && wf_answer jm st then C16_ok_engine jm code st obs else true
+  end.
+Definition engine_case_ok (c : engine_case) : bool := engine_corr_ok c && engine_mon_ok c.
+
 (** shorthands for the generated case files *)
 Definition jn : list str -> str := join nl.
 Definition e_ : str := [].
